@@ -165,12 +165,12 @@ func classify(err error) string {
 
 // execute runs one scenario under one schedule prefix; returns the execution and history.
 type runCtx struct {
-	sc      *scenario
-	kind    string
-	dir     string
-	keys    *wit.WitKeys
-	initial map[string]lin.State
-	initRaw map[string][]byte
+	sc          *scenario
+	kind        string
+	dir         string
+	keys        *wit.WitKeys
+	initial     map[string]lin.State
+	initRaw     map[string][]byte
 	wedge       string
 	wedgeProven bool
 }
